@@ -38,6 +38,9 @@ func EvalHandlers(c *core.Ctx, line string) *core.Case {
 		return nil
 	}
 	bad := func(what, impl string) (string, string) {
+		if w, b := dnsimpl.IsBlocked(what, impl); b {
+			return w, ""
+		}
 		if impl == "panic" || strings.HasPrefix(impl, "hang") {
 			return what + " " + impl, ""
 		}
@@ -72,11 +75,19 @@ func EvalHandlers(c *core.Ctx, line string) *core.Case {
 		impl := dnsimpl.NodeNames(b)
 		return &core.Case{Line: line, Impl: impl, Trivial: len(b) == 0,
 			Oracle: func() (string, string) {
+				if i := strings.Index(impl, dnsimpl.Slack); i >= 0 {
+					return fmt.Sprintf("node name array: parseNodeNameArray reads beyond the slice: %s on an exact-capacity array, %s with spare capacity behind it (reference: %s)",
+						impl[:i], impl[i+len(dnsimpl.Slack):], refNodeNames(b)), ""
+				}
 				if w, k := bad("parseNodeNameArray", impl); w != "" {
 					return w, k
 				}
-				want, ok := refNodeNames(b)
-				if ok && impl != want {
+				want := refNodeNames(b)
+				if want == "err" {
+					if !strings.HasPrefix(impl, "err ") {
+						return fmt.Sprintf("truncated node name array (%d bytes, NUM_NAMES %s needs %s) accepted: parseNodeNameArray gives %s", len(b), numNames(b), needBytes(b), impl), ""
+					}
+				} else if impl != want {
 					return fmt.Sprintf("node name array: parseNodeNameArray gives %s, reference %s", impl, want), ""
 				}
 				return "", ""
@@ -207,10 +218,12 @@ func mdnsOracle(p []byte, impl string) (string, string) {
 }
 
 // refNodeNames: RFC 1002 §4.2.18 NODE_NAME array: NUM_NAMES, then 18-byte entries (16 byte name,
-// 16 bit flags with G = 0x8000); unique names, trailing NUL and space padding removed.
-func refNodeNames(b []byte) (string, bool) {
+// 16 bit flags with G = 0x8000); unique names, trailing NUL and space padding removed.  The array
+// is acceptable exactly when the NUM_NAMES octet is there and 18*NUM_NAMES bytes follow it (whatever
+// comes after is the STATISTICS field); otherwise the answer is "err" (truncated: to be rejected).
+func refNodeNames(b []byte) string {
 	if len(b) < 1 || len(b)-1 < int(b[0])*18 {
-		return "", false
+		return "err"
 	}
 	var s []string
 	for i := 0; i < int(b[0]); i++ {
@@ -220,7 +233,21 @@ func refNodeNames(b []byte) (string, bool) {
 			s = append(s, core.Hex(n))
 		}
 	}
-	return "ok [" + strings.Join(s, ",") + "]", true
+	return "ok [" + strings.Join(s, ",") + "]"
+}
+
+func numNames(b []byte) string {
+	if len(b) == 0 {
+		return "missing"
+	}
+	return strconv.Itoa(int(b[0]))
+}
+
+func needBytes(b []byte) string {
+	if len(b) == 0 {
+		return "1"
+	}
+	return strconv.Itoa(1 + 18*int(b[0]))
 }
 
 func nbnsOracle(p []byte, impl string) (string, string) {
@@ -238,8 +265,10 @@ func nbnsOracle(p []byte, impl string) (string, string) {
 		if r.Type != g.TypeNBSTAT || len(r.RData) < 3 {
 			continue
 		}
-		ns, ok := refNodeNames(r.RData)
-		if !ok || ns == "ok []" {
+		// a truncated array (RDLENGTH < 1 + 18*NUM_NAMES) or one without a unique name yields
+		// nothing and the scan goes on with the next answer
+		ns := refNodeNames(r.RData)
+		if ns == "err" || ns == "ok []" {
 			continue
 		}
 		want = strings.Split(strings.TrimSuffix(strings.TrimPrefix(ns, "ok ["), "]"), ",")[0]
